@@ -12,7 +12,11 @@ Worker case  {"kind":"w", "maxtasks":int|null, "synfd":int|null (null = no synq)
        | ["msg", ty, job, i|null, t, beh, syn, mem]
    beh = ["ret", v] | ["retu"] | ["raise", e] | ["raiseu", e] | ["base", e]
    syn = list of the same receive events, with ["msg", ty] as message
-Observation  {"log":[..], "exit":[kind, code], "completed":int|null, "ensure":bool|null}
+   optional "via_call": true -- run the real Worker.__call__ (workloop, sys.exit, _do_exit) with
+   os._exit faked; the "pid" argument is then os.getpid() as in the code
+Observation  {"log":[..], "exit":[kind, code], "completed":int|null, "ensure":bool|null,
+              "reads":int, "sleeps":int,
+              "call":{"onexit":[pid,code]|null, "death":[pid,code]|null, "osexit":int|null, "sleep1":bool}}
 
 Parent case  {"kind":"p", "job_known":bool, "send_ack":bool, "accept_cb":bool, "callback":bool,
               "error_cb":bool, "evs":[pev..]}
@@ -198,7 +202,12 @@ def run_worker(case):
 
         @staticmethod
         def put(obj):
+            if getattr(st, 'exited', False):
+                return                    # a real os._exit() never returns
             ty, args = obj
+            if ty == bp.DEATH and len(args) == 2:
+                st.log.append(['death', args[0], args[1]])
+                return
             try:
                 data = ForkingPickler.dumps(obj)
             except BaseException:
@@ -218,20 +227,24 @@ def run_worker(case):
     w = bp.Worker(inq, OutQ, synq, maxtasks=None, sentinel=Sentinel(st),
                   max_memory_per_child=case['maxmem'], on_ready_counter=counter)
     w.maxtasks = case['maxtasks']     # also values the constructor's assert refuses (0, negative)
-    w._make_child_methods()           # the real protected receive over the scripted conns
-    real_job, real_syn = w.wait_for_job, w.wait_for_syn
+    orig_make = w._make_child_methods
 
-    def wait_for_job(*a, **k):
-        st.active = inq
-        st.log.append(['inq'])
-        return real_job(*a, **k)
-    w.wait_for_job = wait_for_job
-    if real_syn is not None:
-        def wait_for_syn(*a, **k):
-            st.active = synq
-            st.log.append(['syn'])
-            return real_syn(*a, **k)
-        w.wait_for_syn = wait_for_syn
+    def make_child_methods(*a, **k):
+        orig_make(*a, **k)            # the real protected receive over the scripted conns
+        real_job, real_syn = w.wait_for_job, w.wait_for_syn
+
+        def wait_for_job(*a, **k):
+            st.active = inq
+            st.log.append(['inq'])
+            return real_job(*a, **k)
+        w.wait_for_job = wait_for_job
+        if real_syn is not None:
+            def wait_for_syn(*a, **k):
+                st.active = synq
+                st.log.append(['syn'])
+                return real_syn(*a, **k)
+            w.wait_for_syn = wait_for_syn
+    w._make_child_methods = make_child_methods
 
     def now():
         st.log.append(['now'])
@@ -244,7 +257,9 @@ def run_worker(case):
     class FakeTime:
         @staticmethod
         def sleep(s):
-            st.log.append(['sleep'])
+            if st.exited:
+                return
+            st.log.append(['sleep1'] if s == 1 else ['sleep'])
 
         def __getattr__(self, n):
             return getattr(real_time, n)
@@ -258,26 +273,90 @@ def run_worker(case):
         return seen['ensure']
     w._ensure_messages_consumed = ensure
 
+    via_call = bool(case.get('via_call'))
+    call = dict(onexit=None, death=None, osexit=None, sleep1=False)
+
+    class Exited(BaseException):
+        pass
+
+    def fake_os_exit(code):
+        if call['osexit'] is None:
+            call['osexit'] = code
+        st.exited = True
+        raise Exited()
+
+    def on_exit(pid, code):
+        if not st.exited:
+            call['onexit'] = [pid, code]
+    st.exited = False
+
     real_time, real_mem, real_getpid = bp.time, bp.mem_rss, os.getpid
-    real_error, real_warning = bp.error, bp.warning
+    real_error, real_warning, real_os_exit, real_sys_exit = bp.error, bp.warning, os._exit, sys.exit
     bp.time, bp.mem_rss = FakeTime(), mem_rss
     bp.error = bp.warning = lambda *a, **k: None
     os.getpid = lambda: case['ospid']
     try:
-        try:
-            code = w.workloop(debug=lambda *a, **k: None, now=now, pid=case['pid'])
-            ex = ['ret', code]
-        except SystemExit as exc:
-            ex = ['sysexit', exc.code if isinstance(exc.code, int) else -1]
-        except AssertionError:
-            ex = ['assert', 0]
-        except Starved:
-            ex = ['starved', 0]
-        except BaseException as exc:
-            ex = ['exc', type(exc).__name__]
+        if not via_call:
+            w._make_child_methods()
+            try:
+                code = w.workloop(debug=lambda *a, **k: None, now=now, pid=case['pid'])
+                ex = ['ret', code]
+            except SystemExit as exc:
+                ex = ['sysexit', exc.code if isinstance(exc.code, int) else -1]
+            except AssertionError:
+                ex = ['assert', 0]
+            except Starved:
+                ex = ['starved', 0]
+            except BaseException as exc:
+                ex = ['exc', type(exc).__name__]
+        else:
+            # the real Worker.__call__: workloop -> sys.exit -> _do_exit -> DEATH message -> os._exit
+            real_workloop = w.workloop
+            ex = ['none', 0]
+            box = {}
+
+            def workloop(pid=None):
+                try:
+                    code = real_workloop(debug=lambda *a, **k: None, now=now, pid=pid)
+                    box['ex'] = ['ret', code]
+                    return code
+                except SystemExit as exc:
+                    box['ex'] = ['sysexit', exc.code if isinstance(exc.code, int) else -1]
+                    raise
+                except AssertionError:
+                    box['ex'] = ['assert', 0]
+                    raise
+                except Starved:
+                    box['ex'] = ['starved', 0]
+                    raise
+                except BaseException as exc:
+                    box['ex'] = ['exc', type(exc).__name__]
+                    raise
+            w.workloop = workloop
+            w.after_fork = lambda: None       # would close fds and reset signal handlers
+            w.on_exit = on_exit
+            os._exit = fake_os_exit
+            try:
+                w()
+            except Exited:
+                pass
+            except BaseException as exc:
+                box.setdefault('ex', ['exc', type(exc).__name__])
+                call['osexit'] = call['osexit'] if call['osexit'] is not None else -777
+            ex = box.get('ex', ['none', 0])
     finally:
         bp.time, bp.mem_rss, os.getpid = real_time, real_mem, real_getpid
-        bp.error, bp.warning = real_error, real_warning
+        bp.error, bp.warning, os._exit, sys.exit = real_error, real_warning, real_os_exit, real_sys_exit
+    if via_call:
+        # the DEATH message and the one-second sleep of _do_exit come after the finally clause
+        tail = []
+        while st.log and st.log[-1][0] in ('sleep1', 'death'):
+            tail.insert(0, st.log.pop())
+        for e in tail:
+            if e[0] == 'death':
+                call['death'] = e[1:]
+            else:
+                call['sleep1'] = True
     # the polling of _ensure_messages_consumed (up to 300 reads) is reported as counts
     log = st.log
     k = len(log)
@@ -285,7 +364,7 @@ def run_worker(case):
         k -= 1
     tail = log[k:]
     shape_ok = all(e[0] == ('cnt' if n % 2 == 0 else 'sleep') for n, e in enumerate(tail))
-    return dict(log=log[:k], exit=ex, completed=seen['completed'], ensure=seen['ensure'],
+    return dict(log=log[:k], exit=ex, completed=seen['completed'], ensure=seen['ensure'], call=call,
                 reads=sum(1 for e in tail if e[0] == 'cnt'),
                 sleeps=sum(1 for e in tail if e[0] == 'sleep') if shape_ok else -1)
 
